@@ -345,6 +345,8 @@ def facts(st, recorded, op):
     def resolve(x):
         if x in names:
             return x
+        if x == "":
+            return None
         for k, r in (st["rails"] or []):
             if r == x:
                 return k
@@ -367,14 +369,14 @@ def facts(st, recorded, op):
                     if resolve(e) == t:
                         if e == t and c["name"] != t:
                             stale = True
-                        if e != t and (er != e or e == ""):
+                        if e != t and er != e:
                             stale = True
         f["recorded_input_renamed"] = stale
         f["second_mux"] = (c["kind"] == "pmux" and ctype[t] != "PMUX" and
                            any(ctype[n] == "PMUX" for n in names if n != t))
     if o == "del_comp":
         x = op["name"]
-        f["target_is_rail"] = x not in names and x in railvals
+        f["target_is_rail"] = x not in names and x != "" and x in railvals
         t = resolve(x)
         keeps = False
         if t is not None and not op["del_childs"] and x in names:
@@ -389,7 +391,7 @@ def facts(st, recorded, op):
         f["child_keeps_several_inputs"] = keeps
     if o == "set_comp_phases":
         x = op["name"]
-        f["target_is_rail"] = x not in names and x in railvals
+        f["target_is_rail"] = x not in names and x != "" and x in railvals
     return f
 
 
